@@ -14,6 +14,21 @@ PENDING = "builtin_glue_pending"
 MODULE_ATTR = "_stackscope_install_glue_"
 
 
+def _lock_held_at(m: Mod, node: ast.AST, names=("glue_lock", "_glue.glue_lock")) -> bool:
+    """inside `with glue_lock:` or inside the try of `glue_lock.acquire(); try: ... finally: glue_lock.release()`"""
+    for a in m.ancestors(node):
+        if isinstance(a, ast.With) and any(norm(i.context_expr) in names for i in a.items):
+            return True
+        if isinstance(a, ast.Try) and any(isinstance(f_, ast.Expr) and norm(f_.value) in tuple(f"{n_}.release()" for n_ in names) for f_ in a.finalbody) \
+                and not any(any(x is node for x in ast.walk(f_)) for f_ in a.finalbody):
+            par = m.parent_of(a)
+            for fld in ("body", "orelse", "finalbody"):
+                blk = getattr(par, fld, None)
+                if isinstance(blk, list) and a in blk and blk.index(a) > 0 and isinstance(blk[blk.index(a) - 1], ast.Expr) and norm(blk[blk.index(a) - 1].value) in tuple(f"{n_}.acquire()" for n_ in names):
+                    return True
+    return False
+
+
 def _glue_sources(fn: ast.AST) -> List[Tuple[str, str, ast.AST, bool]]:
     """(local name, kind 'builtin'|'module', assignment, removing?) for every value taken from the two registries"""
     out: List[Tuple[str, str, ast.AST, bool]] = []
@@ -44,14 +59,14 @@ def _callers_hold_lock(ctx: Ctx, mod: Mod, fname: str) -> Tuple[bool, List[str]]
         for c in ast.walk(m.tree):
             if isinstance(c, ast.Call) and ((isinstance(c.func, ast.Name) and c.func.id == fname and m is mod)
                                             or (isinstance(c.func, ast.Attribute) and c.func.attr == fname and norm(c.func.value) in ("_glue", "stackscope._glue"))):
-                held = any(isinstance(a, ast.With) and any(norm(i.context_expr) == "glue_lock" for i in a.items) for a in m.ancestors(c))
+                held = _lock_held_at(m, c)
                 sites.append(f"{m.name}.{m.qualname_of(c)}{'' if held else ' (NOT under glue_lock)'}")
                 ok = ok and held
     return ok, sites
 
 
 def _under_lock(mod: Mod, node: ast.AST) -> bool:
-    return any(isinstance(a, ast.With) and any(norm(i.context_expr) in ("glue_lock", "_glue.glue_lock") for i in a.items) for a in mod.ancestors(node))
+    return _lock_held_at(mod, node)
 
 
 def glue_rules(ctx: Ctx) -> None:
@@ -237,7 +252,7 @@ def glue_rules(ctx: Ctx) -> None:
         s = stores[0]
         g5 = ctx.cfg(add)
         in_loop = any(a is loop for a in mod.ancestors(s))
-        locked = lambda n_: any(isinstance(a, ast.With) and any(norm(i.context_expr) == "glue_lock" for i in a.items) for a in mod.ancestors(n_))
+        locked = lambda n_: _lock_held_at(mod, n_)
         cleanup = [a for a in mod.ancestors(s) if isinstance(a, ast.Try) and (any(s is y or any(s is z for z in ast.walk(y)) for h in a.handlers for y in h.body)
                                                                          or any(s is y or any(s is z for z in ast.walk(y)) for y in a.finalbody))]
         if norm(s.value) != f"len({norm(loop.iter)})":
